@@ -1,5 +1,7 @@
 package system
 
+import "time"
+
 // datePrecision enumerates date precision constants.
 type datePrecision int
 
@@ -83,4 +85,18 @@ var dateTimeMap = map[layout]dateTimePrecision{
 	dtDayLayout:           dtDay,
 	dtMonthLayout:         dtMonth,
 	dtYearLayout:          dtYear,
+}
+
+// parseInFixedZone parses like time.Parse and keeps the written offset as a
+// fixed zone. time.Parse attaches the process's Local location whenever the
+// written offset happens to be Local's offset at that instant, and arithmetic
+// on such a value (AddDate, Add) then follows Local's daylight-saving rules:
+// the same expression would give different results in different processes.
+func parseInFixedZone(layout, value string) (time.Time, error) {
+	t, err := time.Parse(layout, value)
+	if err != nil || t.Location() == time.UTC {
+		return t, err
+	}
+	_, offset := t.Zone()
+	return t.In(time.FixedZone("", offset)), nil
 }
